@@ -258,11 +258,20 @@ def fcv_fcb_table(P, ff):
     return out
 
 
+def _op_ty(f, o):
+    if "k" in o:
+        return (o["k"] or {}).get("ty")
+    pj = o.get("mv") or o.get("cp")
+    if pj is None or pj.get("p"):
+        return None
+    return f.locals[pj["l"]]["ty"]
+
+
 # ------------------------------------------------------------------------------------------------
 def check_frames(ctx, P):
-    ser = ctx.need_fn(CR, "fdl::telegram::DataTelegramHeader::serialize")
+    ser = ctx.need_fn(CR, "fdl::telegram::DataTelegramHeader::serialize", expand=True)
     tl = ctx.need_fn(CR, "fdl::telegram::DataTelegramHeader::telegram_len")
-    de = ctx.need_fn(CR, "fdl::telegram::DataTelegram::deserialize")
+    de = ctx.need_fn(CR, "fdl::telegram::DataTelegram::deserialize", expand=True)
     if not (ser and tl and de):
         return
     # writer: sc table keyed by length_byte
@@ -311,13 +320,18 @@ def check_frames(ctx, P):
     dtb = gd.tb
     rd = {}
     for b, i, s in stmts(de):
-        if "a" in s and s["rv"].get("agg") == "tuple" and len(s["rv"]["fields"]) == 2 and de.locals[s["a"]["l"]]["ty"] == "(u8, usize)":
+        # the pair (payload: u8, total: usize) chosen per start delimiter - a tuple or a two-field record, roles by type
+        if "a" in s and s["rv"].get("agg") in ("tuple", "adt") and len(s["rv"].get("fields") or []) == 2:
+            tys = [_op_ty(de, o) for o in s["rv"]["fields"]]
+            if sorted(t or "" for t in tys) != ["u8", "usize"]:
+                continue
             v = simplify(dtb.rvalue(s["rv"]))
+            pi_, ti_ = tys.index("u8"), tys.index("usize")
             for fs in gd.at(b, i):
                 for k, vs in fs.items():
                     if C10.is_buf_elem(k, C10.idx_const(0)) and vs[0] == "in":
                         for x in vs[1]:
-                            rd[x] = (show(simplify(v[3][0])), show(simplify(v[3][1])))
+                            rd[x] = (show(simplify(v[3][pi_])), show(simplify(v[3][ti_])))
     wantr = {FR["SD1"]: ("0", "6"), FR["SD3"]: ("8", "14"), FR["SD2"]: ("(buffer[1] Sub 3)", "(from(buffer[1]) Add 6)")}
     ctx.ob("b.formats", "reader-format-table", rd == wantr, "reader (payload, total) per start delimiter %s differs from %s" % (rd, wantr), de.loc(0))
     # agreement writer <-> reader for the fixed formats
@@ -407,7 +421,7 @@ def check_frames(ctx, P):
 
 # ------------------------------------------------------------------------------------------------
 def check_counts(ctx, P):
-    ser = ctx.need_fn(CR, "fdl::telegram::DataTelegramHeader::serialize")
+    ser = ctx.need_fn(CR, "fdl::telegram::DataTelegramHeader::serialize", expand=True)
     if ser is None:
         return
     tb = TermBuilder(ser, P)
